@@ -253,6 +253,14 @@ theorem oversize_refused_frame (k : Codec) (r : Req) (c : Option Compression) (t
   obtain ⟨e, he⟩ := oversize_refused r h
   exact ⟨e, by simp [encodeReq, he]⟩
 
+/-- Conversely the driver refuses *only* what does not fit: every representable request is encoded.  Together:
+the encoder succeeds exactly on the representable requests. -/
+theorem representable_accepted (r : Req) (h : Representable r) : ∃ b, encodeBody r = .ok b :=
+  encodeBody_complete h
+
+theorem encode_ok_iff_representable (r : Req) : (∃ b, encodeBody r = .ok b) ↔ Representable r :=
+  ⟨fun ⟨_, hb⟩ => (rdBody_encodeBody hb).1, representable_accepted r⟩
+
 /-- The individual guards, spelled out. -/
 theorem oversize_cases (k : Codec) (c : Option Compression) (tr : Bool) :
     (∀ t p, 2 ^ 31 ≤ t.length → ∃ e, encodeReq k (.query t p) c tr = .error e) ∧
